@@ -805,6 +805,20 @@ def eval_concrete(e, env):
         return fold_icmp(e[1], ("c", bits, va & mask(bits)), ("c", bits, vb & mask(bits)))[2]
     if k == "sel":
         return eval_concrete(e[2] if eval_concrete(e[1], env) else e[3], env)
+    if k == "call" and isinstance(e[1], str) and e[1].startswith(("llvm.cttz.", "llvm.ctlz.", "llvm.ctpop.", "llvm.bswap.")) and e[2]:
+        bits = int(e[1].rsplit(".i", 1)[1])
+        v = eval_concrete(e[2][0], env) & mask(bits)
+        if e[1].startswith("llvm.ctpop."):
+            return bin(v).count("1")
+        if e[1].startswith("llvm.bswap."):
+            return int.from_bytes(v.to_bytes(bits // 8, "little"), "big")
+        if v == 0:
+            if len(e[2]) > 1 and e[2][1][0] == "c" and e[2][1][2]:
+                raise NoValue(e)        # is_zero_undef
+            return bits
+        if e[1].startswith("llvm.cttz."):
+            return (v & -v).bit_length() - 1
+        return bits - v.bit_length()
     raise NoValue(e)
 
 
